@@ -1,3 +1,3 @@
 From Verif Require Import Extract.C16.
 Require Import ExtrOcamlBasic.
-Extraction "c16_model.ml" c16_cfg c16_world0 c16_accept1 c16_settle c16_step c16_result c16_nthreads c16_gz c16_store c16_completeb c16_recover.
+Extraction "c16_model.ml" c16_cfg c16_run.
